@@ -316,6 +316,12 @@ class CallMixin:
             return VBound(inst, fn)
         owner, a = cls.find_attr(name)
         if a is not None:
+            if (inst is not None and isinstance(inst, VRef) and inst.addr in self.symbolic_objs
+                    and self.repo.assigns_instance_attr(name)):
+                # a class-level default that some method rebinds on instances (`self.x = ...`): on a
+                # symbolic object its value is whatever an earlier call left there, not the default
+                raise Unsupported(f"field {name!r} of symbolic {cls.qualname} has a class-level default but is assigned on "
+                                  "instances somewhere in the repository; it is not declared in the typing sidecar")
             key = ("classattr", owner.qualname, name)
             if key not in self.path.memo:
                 self.path.memo[key] = self.ev(a, Env(owner.module, {}, cls=owner))
